@@ -71,12 +71,31 @@ mod verif {
         let a = if k == 0 { Primitive::Int(i32::MIN) } else { Primitive::BigInt(i128::MIN) };
         assert!(val(arm_GenericAbs(one(a))).is_none(), "C14.wrong-value: abs(MIN) produces a value");
     }
-    // floor / ceil / round / ipart / fpart: result is a float and the method never fails (the IEEE function itself is std's)
+    // floor / ceil / round / ipart / fpart: a float, never a failure, and -- for every finite receiver -- the value the name says, stated without
+    // the library function itself: an integer-valued float on the right side of x and less than 1 away from it
+    fn integral(r: f64) -> bool { r.abs() >= 4503599627370496.0 || ((r as i64) as f64 == r) }
+    fn same_side(r: f64, x: f64) -> bool { r == 0.0 || (r < 0.0) == (x < 0.0) }
     fn check_float_part(which: u8) {
         let x: f64 = kani::any();
         let a = one(Primitive::Float(x));
         let r = match which { 0 => arm_FloatFPart(a), 1 => arm_FloatIPart(a), 2 => arm_FloatRound(a), 3 => arm_FloatFloor(a), _ => arm_FloatCeil(a) };
-        match val(r) { Some(Primitive::Float(_)) => (), _ => assert!(false, "C14.kind: float method does not return a float") }
+        match val(r) {
+            Some(Primitive::Float(r)) => {
+                if x.is_finite() && x.abs() >= 4503599627370496.0 {
+                    // every float of this size is an integer already
+                    assert!(if which == 0 { r == 0.0 } else { r == x }, "C14.value: an integer-valued receiver is its own integer part / floor / ceil / round");
+                } else if x.is_finite() {
+                    match which {
+                        0 => assert!(r.abs() < 1.0 && same_side(r, x) && integral(x - r), "C14.value: fpart is what is left of x after its integer part"),
+                        1 => assert!(integral(r) && same_side(r, x) && r.abs() <= x.abs() && x.abs() < r.abs() + 1.0, "C14.value: ipart is x rounded toward zero"),
+                        2 => assert!(integral(r) && (x - r).abs() <= 0.5 && ((x - r).abs() < 0.5 || r.abs() > x.abs()), "C14.value: round is the nearest integer, halves away from zero"),
+                        3 => assert!(integral(r) && r <= x && x < r + 1.0, "C14.value: floor is the largest integer <= x"),
+                        _ => assert!(integral(r) && r >= x && r - 1.0 < x, "C14.value: ceil is the smallest integer >= x"),
+                    }
+                }
+            }
+            _ => assert!(false, "C14.kind: float method does not return a float"),
+        }
     }
     macro_rules! h { ($name:ident, $f:ident ( $($a:expr),* )) => { #[kani::proof] fn $name() { $f($($a),*) } } }
 HARNESSES
